@@ -13,6 +13,7 @@ EXPLANATION = (
     "by the fork tick; (R4) the replay finaliser writes every replay-metadata field the checkpoint validator compares. "
     "Equality of states reached through different seek paths — the behavioural content — is NOT decided."
     ' Round 2: guard strength (confirmed rejection relation, no new bypass condition) on the per-tick verification gates.'
+    " The in-place advance of seek_to is reached only through an order test of the target against the cursor's tick (a rewind never advances in place)."
 )
 ASSUMPTIONS = ["per-tick verification clauses are those of C05.R3", "state equality across paths is out of static reach"]
 FLOOR = 29
